@@ -49,10 +49,41 @@ def render_pos(expr, pos):
         return "aligned(%s) char al0;\nvoid main() { }\n" % expr
     if pos == "asmsize":
         return 'void main() { asm("NOP", %s); }\n' % expr
+    if pos == "stmt8":
+        return "unsigned char r0;\nvoid main() { r0 = %s; }\n" % expr
+    if pos == "stmt16":
+        return "short s0;\nvoid main() { s0 = %s; }\n" % expr
     raise ValueError(pos)
 
 
+def observe_stmt(pos, o):
+    """value stored by main when its code is nothing but loads of immediates and stores to the destination; else None (not folded)"""
+    a = None
+    got = {}
+    for f in o["funcs"]:
+        if f["name"] != "main":
+            continue
+        for l in f["lines"]:
+            if l["k"] != "i":
+                continue
+            if l["mn"] == "LDA" and re.fullmatch(r"#-?\d+", l["op"]):
+                a = int(l["op"][1:]) % 256
+            elif l["mn"] == "STA" and a is not None and l["op"] in ("r0", "s0", "s0+1"):
+                got[l["op"]] = a
+            elif l["mn"] == "RTS":
+                pass
+            else:
+                return None
+    if pos == "stmt8":
+        return got.get("r0")
+    if "s0" in got and "s0+1" in got:
+        return got["s0"] + 256 * got["s0+1"]
+    return None
+
+
 def observe_calc(pos, o):
+    if pos in ("stmt8", "stmt16"):
+        return observe_stmt(pos, o)
     for v in o["vars"]:
         if pos == "init" and v["name"] == "v0":
             return v["def"]["value"]["int"] if v["def"] else None
@@ -76,9 +107,15 @@ def c10(tier):
     d = common.workdir("gen_c10")
     cfg = os.path.join(d, "GenCalc.cfg")
     open(cfg, "w").write("INIT Init\nNEXT Next\nINVARIANT Emit\nCHECK_DEADLOCK FALSE\n")
-    res = common.run_tlc("GenCalc", cfg=cfg, name="gen_c10", tags={"CASE"}, workers=8, heap="8g", timeout=1500)
+    res = common.run_tlc("GenCalc", cfg=cfg, name="gen_c10", tags={"CASE", "SIZEOF"}, workers=8, heap="8g", timeout=1500)
     common.require_ok(res, "GenCalc")
-    cases = [o for (_, o) in res.lines]
+    seen_sz = set()
+    res.sizeof_lines = []
+    for (t, o) in res.lines:
+        if t == "SIZEOF" and o["what"] not in seen_sz:
+            seen_sz.add(o["what"])
+            res.sizeof_lines.append((t, o))
+    cases = [o for (t, o) in res.lines if t == "CASE"]
     cases.sort(key=lambda o: json.dumps(o, sort_keys=True))
     total = len(cases)
     usable = []
@@ -89,6 +126,9 @@ def c10(tier):
             continue
         if c["pos"] in ("arrsize", "aligned", "asmsize") and c["bad"] == "" and not (1 <= c["v"] <= 200):
             skipped += 1      # these positions need a small positive value to be meaningful
+            continue
+        if c["pos"] in ("stmt8", "stmt16") and c["bad"] == "" and c["big"] > 32767:
+            skipped += 1      # intermediate values beyond 16 bits inside a statement: not decided
             continue
         usable.append(c)
     cases = usable
@@ -107,7 +147,7 @@ def c10(tier):
     for fd in verdict.findings:
         for k in fd.get("cases", []):
             kf[k] = fd["id"]
-    nbad = exact = errors_ok = grammar_rejects = 0
+    nbad = exact = errors_ok = grammar_rejects = not_folded = stmt_exact = 0
     for c, ob in zip(cases, obs):
         o = ob[0] if ob else {"status": "missing"}
         st = o.get("status")
@@ -130,10 +170,15 @@ def c10(tier):
                 errors_ok += 1
         else:
             got = observe_calc(c["pos"], o)
-            if got != c["v"]:
-                problem = "evaluates to %s, C assigns %d" % (got, c["v"])
+            want = c["v"] % 256 if c["pos"] == "stmt8" else c["v"] % 65536 if c["pos"] == "stmt16" else c["v"]
+            if c["pos"] in ("stmt8", "stmt16") and got is None:
+                not_folded += 1          # computed at run time (comparisons, ...): C01's business
+            elif got != want:
+                problem = "evaluates to %s, C assigns %d" % (got, want)
             else:
                 exact += 1
+                if c["pos"] in ("stmt8", "stmt16"):
+                    stmt_exact += 1
         if problem is None:
             continue
         ops = [t["s"] for t in c["tokens"] if t["t"] == "op" and t["s"] not in "()"]
@@ -146,11 +191,46 @@ def c10(tier):
         nbad += 1
         verdict.violation("`%s` as %s: %s" % (c["_expr"], c["pos"], problem), dict(property=pid, expression=c["_expr"], tokens=c["tokens"], position=c["pos"], c_value=c["v"], largest_intermediate=c["big"],
                                                                               undefined=c["bad"], problem=problem, source=c["_src"], finding_keys=keys))
-    if exact < 200:
-        raise common.ToolError("vacuous: %d exact evaluations" % exact)
+    # ---- sizeof in constant positions (values prescribed by Calc!SizeOf, printed by the generator run as SIZEOF lines)
+    szcases = []
+    for (_, o) in getattr(res, "sizeof_lines", []):
+        szcases.append(o)
+    SZ_DECL = "char sc1; short sh1; unsigned char arr8[8]; short sarr4[4]; char *ptr1; char *ptab3[3]; const char ctab5[5] = {1, 2, 3, 4, 5};\n"
+    hz = []
+    for i, z in enumerate(szcases):
+        for pos, tmpl in (("init", "const short v0 = %s;"), ("arrsize", "char a0[%s];"), ("expr", "const short v0 = %s + 1;")):
+            e = "sizeof(%s)" % z["what"]
+            src = SZ_DECL + (tmpl % e) + "\nvoid main() { }\n"
+            hz.append((z, pos, src))
+    zobs = common.run_harness("compile", [dict(id=i, src=h[2], variants=[dict(name="O1", args=["-O1"])]) for i, h in enumerate(hz)], "c10z")
+    sz_ok = 0
+    for (z, pos, src), ob in zip(hz, zobs):
+        o = ob[0] if ob else {"status": "missing"}
+        want = z["size"] + (1 if pos == "expr" else 0)
+        problem = None
+        if o.get("status") == "err" and o["err"].get("msg", "").startswith("expected "):
+            grammar_rejects += 1
+            continue
+        if o.get("status") != "ok":
+            problem = "compiler %s: %s" % (o.get("status"), json.dumps(o.get("err", o.get("panic", "")))[:100])
+        else:
+            got = observe_calc("init" if pos == "expr" else pos, o)
+            if got != want:
+                problem = "sizeof(%s) evaluates to %s, C assigns %d" % (z["what"], got, want)
+            else:
+                sz_ok += 1
+        if problem:
+            key = "sizeof:" + z["what"]
+            if key in kf:
+                verdict.attribute(kf[key])
+                continue
+            nbad += 1
+            verdict.violation("sizeof(%s) as %s: %s" % (z["what"], pos, problem), dict(property=pid, expression="sizeof(%s)" % z["what"], position=pos, c_value=want, problem=problem, source=src))
+    if exact < 200 or sz_ok < 5 or stmt_exact < 50:
+        raise common.ToolError("vacuous: %d exact evaluations, %d sizeof" % (exact, sz_ok))
     cov = dict(states=res.distinct, transitions=res.generated, traces_validated_against_impl=len(cases),
                samples=[dict(expression=c["_expr"], position=c["pos"], value=c["v"]) for c in cases[300:304]],
-               cases_generated=total, skipped_undefined_or_unusable=skipped, cases_replayed=len(cases), evaluated_exactly=exact, correctly_rejected=errors_ok, refused_by_grammar=grammar_rejects,
+               cases_generated=total, statement_positions=dict(folded_and_exact=stmt_exact, computed_at_run_time_not_judged=not_folded), sizeof_cases=len(hz), sizeof_exact=sz_ok, skipped_undefined_or_unusable=skipped, cases_replayed=len(cases), evaluated_exactly=exact, correctly_rejected=errors_ok, refused_by_grammar=grammar_rejects,
                disagreements=nbad, attributed_to_known_findings=verdict.known, exhaustive=(tier != "quick"),
                explanation="GenCalc.tla enumerates token strings (every ordered pair of the 17 binary operators over six literal triples, parenthesised both ways, "
                            "unary operators in every operand position, chains, nested ?:, literal forms, overflow and division-by-zero edges) with the value "
@@ -180,6 +260,9 @@ def render_site(pos, callee):
         "ternary": "a = b ? %s : 2;" % e,
         "switchcase": "switch (a) { case 1: %s; break; default: b++; }" % e,
         "assign": "b = %s + 1;" % e,
+        "binop_rhs": "a = (b & 3) + %s;" % e,          # the accumulator already holds a pending operand when the call is made
+        "cmp_rhs": "if ((b & 3) == %s) a++;" % e,
+        "index": "a = arr[%s & 3];" % e,
         "ret": "return %s;" % e,
     }[pos]
 
@@ -204,7 +287,7 @@ def render_graph(c):
         if pos == "ret" and f == "main":
             pos = "assign"
         bodies[f].append(render_site(pos, g))
-    text = "unsigned char a, b;\n"
+    text = "unsigned char a, b; unsigned char arr[4];\n"
     if uses_w:
         text += "char w(char x) { return x; }\n"
         src["w"] = []
@@ -242,9 +325,9 @@ def c12(tier):
     verdict = common.Verdict(pid)
     d = common.workdir("gen_c12")
     cfg = os.path.join(d, "GenGraph.cfg")
-    possets = ['{"stmt", "ifcond", "arg", "loopbody", "ret"}']
+    possets = ['{"stmt", "ifcond", "arg", "loopbody", "ret"}', '{"binop_rhs", "cmp_rhs", "stmt", "assign"}']
     if tier == "thorough":
-        possets.append('{"whilecond", "ternary", "switchcase", "assign", "stmt"}')
+        possets.append('{"whilecond", "ternary", "switchcase", "index", "stmt"}')
     seen, cases = set(), []
     res = None
     for pi, pos in enumerate(possets):
@@ -265,7 +348,7 @@ def c12(tier):
     cases.sort(key=lambda o: json.dumps(o, sort_keys=True))
     total = len(cases)
     rnd = random.Random(common.seed())
-    n = 7000 if tier == "quick" else 60000
+    n = 8000 if tier == "quick" else 60000
     if len(cases) > n:
         cases = rnd.sample(cases, n)
     hc = []
@@ -415,6 +498,13 @@ def c16(tier):
     optsets = [["-O1"], ["-O0"], ["-O1", "-DA=1"], ["-O1", "--insert-code"], ["-O2", "-Wall"]]
     for i, (src, kind) in enumerate(cases):
         hc.append(dict(id=i, src=src, variants=[dict(name="v", args=optsets[i % len(optsets)] if i >= len(seeds) else ["-O1"])]))
+    # "every option set": unusual but accepted command lines on a few seeds (the rotation above is left as it is)
+    odd = [["-O1", "-D", ""], ["-O1", "-DA(=1"], ["-O1", "-DA+B=2"], ["-O1", "-D", "A B=3"], ["-O1", "-DX"], ["-O1", "-Dmain=foo"], ["-O1", "-D1=2"], ["-O1", "-D", "=5"],
+           ["-O3", "-I", "/nonexistent/dir"], ["-O1", "-D[a=1"], ["-O1", "-D\\=1"], ["-O1", "-Dvoid=char"], ["-O0", "-DA=A"], ["-O1", "-DA=B", "-DB=A"]]
+    for k, o in enumerate(odd):
+        for s in (seeds[0], seeds[(7 * k + 3) % len(seeds)], "#define Q 1\nunsigned char A, B; void main() { A = B + Q; }\n"):
+            cases.append((s, "odd-options"))
+            hc.append(dict(id=len(hc), src=s, variants=[dict(name="v", args=o)]))
     obs = common.run_harness("compile", hc, "c16", deadline_ms=2500)
     recs = []
     for i, ((src, kind), ob) in enumerate(zip(cases, obs)):
@@ -513,6 +603,15 @@ def det_programs(tier):
     progs.append("char g1(char x); char g1(char x); char g2(char y); unsigned char a;\nchar g2(char y) { return y; }\nchar g3(char z) { return z; }\nchar g1(char x) { return g2(x); }\nvoid main() { a = g1(1) + g3(2); }\n")
     progs.append("unsigned char a; void main() { a = 300; }\n")                      # a warning is printed
     progs.append("char *p; unsigned char a; void main() { a = *p; }\n")
+    # several diagnostics compete: the one reported must not depend on map iteration order
+    progs.append("void fv() { }\nvoid f1() { X = fv() + 1; }\nvoid f2() { Y = fv() + 1; }\nvoid f3() { if (fv()) X = 1; }\nvoid f4() { X = fv() + 2; }\nvoid main() { f1(); f2(); f3(); f4(); }\n")
+    progs.append("unsigned char a;\nvoid interrupt i1(char x) { a = x; }\nvoid interrupt i2(char y) { a = y; }\nchar interrupt i3() { return 1; }\nchar interrupt i4(char z) { return z; }\nvoid main() { }\n")
+    progs.append("unsigned char a;\nvoid u1() { nofn1(); }\nvoid u2() { nofn2(); }\nvoid u3() { a = nov3; }\nvoid main() { u1(); u2(); u3(); }\n")
+    # the same text with the same header name resolved in different include directories: "regardless of what was compiled before"
+    inc = '#include "cfg.h"\nunsigned char a; void main() { a = K; }\n'
+    progs.append(dict(src=inc, files={"cfg.h": "#define K 10\n"}))
+    progs.append(dict(src=inc, files={"cfg.h": "#define K 20\n"}))
+    progs.append(dict(src=inc, files={"cfg.h": "#define K 30\nunsigned char extra;\n"}))
     return progs
 
 
@@ -531,7 +630,8 @@ def c05(tier):
         # each program twice within a process, interleaved with the others
         for rep in range(2):
             for pi in order:
-                cases.append(dict(id="%d.%d.%d" % (r, rep, pi), src=progs[pi], cfg=dict(text=True), variants=[dict(name=" ".join(o), args=o) for o in optsets]))
+                pg = progs[pi] if isinstance(progs[pi], dict) else dict(src=progs[pi])
+                cases.append(dict(pg, id="%d.%d.%d" % (r, rep, pi), cfg=dict(text=True), variants=[dict(name=" ".join(o), args=o) for o in optsets]))
         obs = common.run_harness("compile", cases, "c05", nproc=2)
         for c, ob in zip(cases, obs):
             pi = int(c["id"].split(".")[2])
@@ -572,7 +672,7 @@ def c05(tier):
     cov = dict(evaluations=len(hist), distinct_nontrivial=len(first), rule="%d programs (k string literals in one call / initialiser list / function, 3-40 variables and functions, "
                "inline functions, interrupt handlers, locals with shadowing, macro strings, a program that draws a warning) x %d option sets; each compiled twice per process, "
                "interleaved with the others in shuffled order, in %d rounds of fresh processes; distinct = (program, options) pairs" % (len(progs), len(optsets), rounds),
-               samples=[dict(source=progs[i]) for i in (1, 7, len(progs) - 3)], compilations=len(hist), fresh_processes=rounds * 2, states=res.distinct,
+               samples=[dict(source=progs[i]) for i in (1, 7, len(progs) - 9)], compilations=len(hist), fresh_processes=rounds * 2, states=res.distinct,
                attributed_to_known_findings=verdict.known, explanation="the recorded compile history is validated by TLC against Determinism.tla")
     common.write_evidence(pid, tier, "exploration", cov, time.time() - t0, len(verdict.violations),
                           ["a hash-order leak between 2 orders escapes %d independent compilations with probability 2^-%d" % (rounds * 4, rounds * 4 - 1), "diagnostics printed to stdout are not captured"])
